@@ -40,7 +40,15 @@ def handle (j : Json) : Json :=
     let tout := axes.map fun (_, _, _, t, _) => t
     let pixU := axes.map fun (_, _, _, _, p, _) => p
     let worldU := axes.map fun (_, _, _, _, _, w) => w
-    let w : W := { fwd := ⟨usesQ, affine ab, tin, tout⟩, bwd := ⟨usesQ, affineInv ab, tout, tin⟩, pixU := pixU, worldU := worldU }
+    -- optional user-supplied unit-free inverse next to a unit-carrying forward transform: {"bwd_plain": [[a', b']..]} (frame units)
+    let bwdPlain : Option (List (Rat × Rat)) := (jList (fun t => do
+        match ← jArr t with
+        | [a, b] => pure ((← jRat a), (← jRat b))
+        | _ => none) (jFieldD j "bwd_plain" Json.null))
+    let bwd : Tr := match bwdPlain with
+      | some ab' => ⟨false, affineInv ab', worldU, pixU⟩
+      | none => ⟨usesQ, affineInv ab, tout, tin⟩
+    let w : W := { fwd := ⟨usesQ, affine ab, tin, tout⟩, bwd := bwd, pixU := pixU, worldU := worldU }
     let vals := args.filterMap unArg
     let outVals (r : Except Err (List Rat)) : Json :=
       match r with | .ok vs => okJson (listToJson ratToJson vs) | .error e => errJson e
